@@ -225,7 +225,8 @@ def gen_runs(rng, maxruns=8):
 
 
 def gen_name(rng):
-    return "".join(rng.choice("abcXYZ019_-") for _ in range(rng.randint(1, 6)))
+    # no leading "-": argparse would take the whole specification for an option
+    return rng.choice("abcXYZ019_") + "".join(rng.choice("abcXYZ019_-") for _ in range(rng.randint(0, 5)))
 
 
 def gen_params(rng, allowed_flags, p_each=0.3, dup=0.03):
@@ -555,8 +556,8 @@ MALFORMED_TEMPLATES = [
 
 
 def mutate(rng, s):
-    toks = ["^", "$", "X", "x", "{", "}", ";", "=", ".", "...", " ", "N", "A", "3", "0.5", "o=3", "e=2", ";anywhere", ";required",
-            ";optional", ";noindels", ";indels", ";rightmost", ";o=", ";e", "{2}", "file:", "n=", "\t", "Z", "u"]
+    toks = ["^", "$", "X", "x", "{", "}", ";", "=", ".", "...", " ", "N", "A", "3", "0.5", ";o=3", ";e=2", ";anywhere", ";required",
+            ";optional", ";noindels", ";indels", ";rightmost", ";o=", ";e", "{2}", "{0}", "n=", "\t", "Z", "u", "^", "$", "X", "...", "{3}"]
     for _ in range(rng.randint(1, 3)):
         op = rng.random()
         i = rng.randint(0, len(s))
@@ -624,9 +625,9 @@ def _run(ctx, rng, impl):
                 "x global options), a malformed stream (templates + random edits) and undocumented combinations; non-trivial = distinct "
                 "(option, specification, globals, FASTA records) with at least one of restriction/parameter/name/braces/linked/file")
     cases = []          # (line, impl)
-    n_doc = ctx.scale(9000, 120000)
-    n_mal = ctx.scale(5000, 80000)
-    n_real_kmer = ctx.scale(300, 5000)
+    n_doc = ctx.scale(14000, 120000)
+    n_mal = ctx.scale(8000, 80000)
+    n_real_kmer = ctx.scale(600, 5000)
     cli_budget = ctx.scale(40, 400)
     cli_cases = []
     observations = {}
